@@ -30,6 +30,12 @@ def variants(base, rng, dtypes=None):
         out.append(("read-only", ro))
         out.append(("empty", np.array([], dtype=dt)))
         out.append(("length-1", a[:1].copy()))
+        # equal entries (a piecewise-constant schedule, rounded gauge readings): every occurrence gets its value
+        out.append(("repeated-values", np.concatenate([a, a[:2], a[-1:], a[:2]]) if len(a) else a.copy()))
+        if dt == np.float64 and len(a):
+            # entries that differ by parts in 1e6 .. 1e7 (node pressures of a barely depleted reservoir): nearly equal is not equal
+            out.append(("nearly-equal-values", a[len(a) // 2] * (1 + 2e-6 * np.arange(5))))
+            out.append(("nearly-equal-values-1e-7", a[-1] * (1 - 1e-7 * np.arange(4))))
     return out
 
 
@@ -97,6 +103,12 @@ def run(ctx):
             compare("Fluid.oil_viscosity", fl.oil_viscosity, lambda x: oil.viscosity_beggs_robinson(T, x, api, gg, rsi), arr, label, params)
             compare("Fluid.water_FVF", fl.water_FVF, lambda x: water.b_water_McCain(T, x), arr, label, params)
             compare("Fluid.water_viscosity", fl.water_viscosity, lambda x: water.viscosity_water_McCain(T, x, sal), arr, label, params)
+            # the gas methods take arrays too (one correlation call per entry)
+            tpc_g, ppc_g = -70.0, 655.0
+            if 1.05 <= (T + 459.67) / (tpc_g + 459.67) <= 3.0 and (not arr.size or float(arr.max()) / ppc_g <= 30.0):
+                from bluebonnet.fluids import gas as gas_
+                compare("Fluid.gas_FVF", lambda a: fl.gas_FVF(a, tpc_g, ppc_g), lambda x: gas_.b_factor_DAK(T, x, tpc_g, ppc_g), arr, label, dict(**params, Tpc=tpc_g, Ppc=ppc_g))
+                compare("Fluid.gas_viscosity", lambda a: fl.gas_viscosity(a, tpc_g, ppc_g), lambda x: gas_.viscosity_Sutton(T, x, tpc_g, ppc_g, gg), arr, label, dict(**params, Tpc=tpc_g, Ppc=ppc_g))
         # integer-valued scalar parameters (Python ints) with large integer pressures: any product formed
         # in the array's integer dtype before a float enters (p*T, p**2*T, ...) wraps silently for int32
         Ti, sali = int(rng.choice([100, 200, 300, 400])), int(rng.integers(0, 25))
